@@ -73,15 +73,10 @@ Emit ==
        IN /\ level' = [level EXCEPT ![e] = Min(lv, 2000000000)]
           /\ tPrev' = [tPrev EXCEPT ![e] = Cur.t]
           /\ rttMax' = [rttMax EXCEPT ![e] = rtt]
-          \* Credit is granted in step() for the time since the previous step (capped at rate * RTT)
-          \* but spent by flushes after it: a flush / step / flush sequence at one instant can put
-          \* that much credit plus one more frame on the wire at once, and a sender running at the
-          \* full ceiling never pays it back.  That excess is reported under its own reason (known
-          \* finding F22); anything beyond it is a different violation.
-          /\ LET gap == Min(gapNow[e], gapPrev[e])
-                 slack == IF gap <= 1000000000 \div r /\ r * gap <= 1000000000 THEN r * gap + 1472000 ELSE 1000000000
-             IN bad' = bad \cup (IF judged /\ lv > bound /\ lv - bound <= slack THEN Flag("C13", "burst-within-one-step-of-credit") ELSE {})
-                           \cup (IF judged /\ lv > bound /\ lv - bound > slack THEN Flag("C13", "burst-above-ceiling") ELSE {})
+          \* (until fixes 62262af and 8b67270 part of the excess was a known finding - credit of two intervals spent at
+          \* one instant, F22 - and hid a second defect, the rounding drift of the refill, F25; both are repaired and
+          \* every excess is a violation)
+          /\ bad' = bad \cup (IF judged /\ lv > bound THEN Flag("C13", "burst-above-ceiling") ELSE {})
           /\ nemit' = IF judged THEN nemit + 1 ELSE nemit
           /\ peak' = IF judged THEN Max(peak, ((lv \div 1000) * 100) \div (bound \div 1000)) ELSE peak
     /\ UNCHANGED <<ceil, rttNow, rttPrev, tStep, gapNow, gapPrev>>
